@@ -137,9 +137,21 @@ func rulePOOL2(c *Ctx) {
 		recv := rfn.Type().(*types.Signature).Recv()
 		covered := map[*types.Var]string{}
 		// assignments x.F = ..., x.F.reset(), x.F = T{...}
+		conditional := map[*types.Var]bool{}
 		for _, fs := range fieldStores(info, f.Body(), false) {
 			if sel, ok := ast.Unparen(fs.LHS).(*ast.SelectorExpr); ok && IdentObj(info, sel.X) == recv && fs.Whole {
-				covered[fs.Field] = "assigned"
+				// only an assignment that is a direct statement of reset's body is unconditional
+				direct := false
+				for _, st := range f.Body().List {
+					if st == fs.Stmt {
+						direct = true
+					}
+				}
+				if direct {
+					covered[fs.Field] = "assigned"
+				} else if covered[fs.Field] == "" {
+					conditional[fs.Field] = true
+				}
 			}
 		}
 		InspectNoLit(f.Body(), func(nd ast.Node) bool {
@@ -167,6 +179,10 @@ func rulePOOL2(c *Ctx) {
 			}
 			if reason, ok := poolCarryOver[fld.Name()]; ok {
 				c.OK(key, fld.Pos(), "carried over: "+reason)
+				continue
+			}
+			if conditional[fld] {
+				c.Violation(key, fld.Pos(), "field is only reset under a condition in "+f.Name+": on the other path a reused coder keeps it from the previous use")
 				continue
 			}
 			c.Violation(key, fld.Pos(), "field is neither assigned nor reset by "+f.Name+" and is not in the reviewed carry-over table: a pooled or Reset coder would keep it from the previous use")
